@@ -2,6 +2,7 @@ from .common import TRUSTED_BASE_COMMON
 THEOREMS = [
     "C01_ledger_total_invariant", "C01_history_total_invariant", "C01_rollback_exact", "C01_burn_only_moves",
     "C01_burnt_funds_actor_is_99", "C01_reward_never_overpays", "C01_paych_solvent",
+    "C01_market_solvent", "C01_miner_solvent",
 ]
 MODEL_TARGETS = ["Model/Ledger"]
 HARNESS = [
@@ -18,7 +19,7 @@ RULE = ("each case is a seeded mixed history over accounts, market, 1-2 real min
 MAY_NEVER_ACCEPT = []
 TRUSTED_BASE = TRUSTED_BASE_COMMON + [
     "C01 ledger model coq/Model/Ledger.v: balances + invocation trees; the VM's transfer/roll-back semantics is that of harness/vvm (modelled on test_vm/ref-fvm), validated against the model on every explored message; gas fees and miner tips are outside the actors and not modelled",
-    "custodian solvency: paych and reward proved here; market (C06_market_solvent) and miner (C14 solvency theorems) are proved over their own models in the C06/C14 developments; the Rust monitors evaluate all four inequalities on the real state after every message",
+    "custodian solvency: all four pinned in Props/C01.v -- paych and reward over Model/Paych.v and Model/Ledger.v, market over Model/Market.v (via the C06 invariant), miner over Model/MinerFunds.v (via the C14 history invariant; pledge/penalty amounts are operation inputs); the Rust monitors evaluate all four inequalities on the real state after every message",
 ]
 ASSUMPTIONS = ["conservation is a property of the VM: vvm stands in for the production FVM"]
 LEVEL_TEXT = ("Proof (Coq) of conservation/roll-back for arbitrary invocation trees and of the paych/reward solvency clauses; "
